@@ -1,6 +1,9 @@
 package main
 
-import "strings"
+import (
+	"path/filepath"
+	"strings"
+)
 
 // Registration of the per-property checks.
 
@@ -67,6 +70,34 @@ func init() {
 			"yaml.v3 semantics are assumed: NewDecoder is not strict, KnownFields(true) makes Decode reject any mapping key that matches no field of the target struct at any depth (for struct targets without custom unmarshalers); JSON Schema additionalProperties:false rejects undeclared keys",
 			"positions typed any / map[string]any / map[string]string are open by design (listed in trusted_base)",
 			"the safety obligations of the loaders (nil dereferences etc.) belong to C04, not to this property",
+		},
+	}
+	propSpecs["C03"] = &PropSpec{
+		ID:       "C03",
+		Patterns: []string{"./..."},
+		Level:    "proof",
+		NoTags:   true,
+		CustomLock: true,
+		Extra: func(e *Engine, tier string) []*FuncResult {
+			locked := map[string]bool{}
+			for _, l := range loadLock(filepath.Join(verifRoot(), "obligations.lock"), "C03") {
+				locked[l] = true
+			}
+			var out []*FuncResult
+			for _, s := range e.mapRangeSites() {
+				if locked[s.Name] {
+					out = append(out, e.commuteResult(s))
+					delete(locked, s.Name)
+				}
+			}
+			// a locked site that no longer exists as a map range is fine (it cannot be order dependent any more)
+			out = append(out, e.nondetScanResult(), e.newSitesResult())
+			return out
+		},
+		Assumptions: []string{
+			"reduction: a cog run is sequential Go; its only scheduling freedom is the iteration order of `range` over built-in maps; the libraries cog calls are deterministic; codejen.FS sorts paths; text/template ranges over maps in sorted key order; filepath.Glob and os.ReadDir return sorted names",
+			"one order-independence obligation per range-over-map site listed in obligations.lock: the body is executed from an arbitrary state for two arbitrary distinct keys in both orders and the resulting states must agree (collected slices: up to the order of the two new elements, and they must be sorted before use)",
+			"sites of the pipeline that are not in the lock are either recorded findings or undecided (listed in DESIGN.md); a NEW range-over-map site fails the check until it is classified",
 		},
 	}
 }
